@@ -279,6 +279,13 @@ def run_puppet(cfg, script, drain=False):
         pu.finish()
 
 
+def note_hyp(ctx, obs):
+    """the delivery-report hypothesis of the C06 theorems (GWFRun), validated on the real trace"""
+    ctx.notes["delivery_reports_checked"] = ctx.notes.get("delivery_reports_checked", 0) + obs.reports_checked
+    for v in obs.hyp_violations[:1]:
+        ctx.broken.append({"kind": "broken-assumption", "assumption": "delivery reports name outstanding frames", "detail": v})
+
+
 def ledger_problems(outs):
     """credit neither double counted nor leaked: on every state line of the
     implementation `used == gs + sum(sh)`"""
